@@ -36,12 +36,32 @@ def ret_(vc, v):
 _ORIG = {}
 
 
+def _register_oracle():
+    from pyvc import lib
+
+    def real_pack(name):
+        _remember_originals()
+        try:
+            return _ORIG["pack"](name)
+        except Exception:
+            return b""
+
+    lib.UF_ORACLES.setdefault("packname", real_pack)
+
+
+NAME_CANDS = [dict(read0_name=a, read1_name=b, before=bytes(12) + b"\x07example\x03com\x00", after=b"") for a, b in
+              [("example.com", "b.org"), ("", "example.com"), ("m\u00fcnchen.de", "a"), ("a", "")]]
+
+
 def _remember_originals():
     from mitmproxy.net.dns import domain_names
     for n in ("pack", "unpack_from_with_compression"):
         f = getattr(domain_names, n)
         if getattr(f, "__module__", "") == domain_names.__name__:
             _ORIG.setdefault(n, f)
+
+
+_register_oracle()
 
 
 def packname(vc, name):
@@ -136,7 +156,7 @@ def s_decompress_plain(vc):
     vc.ensure("no_name_reading", len(rd.calls) == 0)
 
 
-@scenario("decompress.one_name", functions=[DN + "decompress_from_record_data"], max_unroll=8)
+@scenario("decompress.one_name", functions=[DN + "decompress_from_record_data"], candidates=NAME_CANDS, max_unroll=8)
 def s_decompress_one(vc):
     """RDATA laid out as [fixed fields] [a name given as a compression pointer] [fixed fields] (MX, SRV, CNAME, ...): the
     result is the fixed fields unchanged with the pointer replaced by the uncompressed name.
@@ -146,7 +166,7 @@ def s_decompress_one(vc):
     p0 = vc.sym_int("ptr_hi", lo=192, hi=255)
     p1 = vc.sym_int("ptr_lo", lo=0, hi=255)
     prefix, suffix = vc.sym_bytes("before"), vc.sym_bytes("after")
-    K = Or(any_ge_c0(pre), any_ge_c0(post), p1 >= 192)
+    K = Or(any_ge_c0(pre), any_ge_c0(post))
     if vc.mode == "sym" and vc.branch(K):
         vc.assume(False)  # inside the recorded class: witness replayed natively
     rd = Reader(vc)
@@ -155,19 +175,22 @@ def s_decompress_one(vc):
     vc.ensure("ok", out.ok)
     if not out.ok:
         return
-    at_ptr = [c for c in rd.calls if vc.branch(c["offset"] == off + npre)]
-    vc.ensure_kf("name_read_exactly_at_the_pointer", len(rd.calls) == 1 and len(at_ptr) == 1, "KF-C26-3", K)
-    if len(at_ptr) != 1:
+    vc.ensure_kf("first_name_read_is_at_the_pointer", len(rd.calls) >= 1 and vc.truthy(rd.calls[0]["offset"] == off + npre), "KF-C26-3", K)
+    if len(rd.calls) == 0 or not vc.truthy(rd.calls[0]["offset"] == off + npre):
         return
-    c = at_ptr[0]
+    c = rd.calls[0]
     vc.ensure("reader.whole_message_and_cache", c["buffer"] is buf and c["cache"] is cache)
     if vc.branch(c["fails"]):
-        vc.ensure_kf("unreadable_pointer.left_alone", out.result == rdata, "KF-C26-3", K)
+        # not a readable pointer (malformed message): the octets are left alone; if the second octet is >= 0xC0 it may be tried too
+        if vc.branch(p1 < 192):
+            vc.ensure_kf("unreadable_pointer.no_other_read", len(rd.calls) == 1, "KF-C26-3", K)
+            vc.ensure_kf("unreadable_pointer.left_alone", out.result == rdata, "KF-C26-3", K)
         return
+    vc.ensure_kf("pointer_consumed_whole.no_other_read", len(rd.calls) == 1, "KF-C26-3", K)
     vc.ensure_kf("pointer_replaced_by_uncompressed_name", out.result == as_bytes(pre) + packname(vc, c["name"]) + as_bytes(post), "KF-C26-3", K)
 
 
-@scenario("decompress.two_names", functions=[DN + "decompress_from_record_data"], max_unroll=10)
+@scenario("decompress.two_names", functions=[DN + "decompress_from_record_data"], candidates=NAME_CANDS, max_unroll=10)
 def s_decompress_two(vc):
     """RDATA with two names, both given as pointers, followed by fixed fields (SOA: MNAME RNAME + 5 x 32 bit; MINFO, RP):
     both pointers are replaced by the uncompressed names, in place.
@@ -448,6 +471,18 @@ def _cases(tier, rnd):
         cases.append(("",) + resp(Q, [r]))
     for i in range(0, min(len(gen), 120 if tier == "quick" else len(gen)), 4):
         cases.append(("",) + resp(Q, gen[i:i + 4]))
+    # a compression pointer whose second octet is >= 0xC0 (target at offset 197): must be expanded like any other pointer
+    pad = rr(P, 16, b"\x9b" + b"x" * 155)
+    assert len(header(1, 0, 1) + question(Q, 1) + pad) == 197
+    cases.append(("", header(0x2223, 0x0100, 1) + question(Q, 1),
+                  header(0x2223, 0x8180, 1, 3) + question(Q, 1) + pad + rr(wire_name("t.example.org"), 1, b"\x01\x02\x03\x04") + rr(P, 5, ptr(197))))
+    cases.append(("", header(0x2224, 0x0100, 1) + question(Q, 1),
+                  header(0x2224, 0x8180, 1, 3) + question(Q, 1) + pad + rr(wire_name("t.example.org"), 1, b"\x01\x02\x03\x04") + rr(P, 15, b"\x00\x05\x02mx" + ptr(197))))
+    # pointer c0 c0 (target 192) followed by a label of length 0x0c: the second pointer octet plus the next octet look like a pointer to offset 12
+    pad2 = rr(P, 16, b"\x96" + b"x" * 150)
+    assert len(header(1, 0, 1) + question(Q, 1) + pad2) == 192
+    cases.append(("", header(0x2225, 0x0100, 1) + question(Q, 1),
+                  header(0x2225, 0x8180, 1, 3) + question(Q, 1) + pad2 + rr(wire_name("t.example.org"), 1, b"\x01\x02\x03\x04") + rr(P, 14, ptr(192) + b"\x0cabcdefghijkl\x00")))
     # ---- recorded classes
     k1 = "txt_or_hinfo_rdata_with_octet>=0xc0"          # KF-C26-1
     cases.append((k1,) + resp(Q, [rr(P, 16, b"\x02\xc0\x0c")]))
